@@ -431,7 +431,8 @@ def SCHEMA_GENERATORS(src, attempt, problems):
             ('GenHashTags.v', lambda: gen_hash_tags(src, attempt)),
             ('GenPanicArms.v', lambda: gen_panic_arms(src, attempt)),
             ('GenFmt.v', lambda: gen_fmt(src, attempt)),
-            ('GenMaxSize.v', lambda: gen_max_size(src, attempt))]
+            ('GenMaxSize.v', lambda: gen_max_size(src, attempt)),
+            ('GenSchemaImpls.v', lambda: gen_schema_impls(src, attempt, problems))]
 
 
 # ----------------------------------------------------------------------------------------
@@ -545,4 +546,253 @@ def gen_max_size(src, attempt):
             raise Untranslatable("max_size.rs: only %d impl rows found" % len(res))
         return "Definition maxsize_impls : list (list N * mexpr) :=\n  [%s]." % ';\n   '.join(res)
     attempt(out, 'max_size.rs:impl rows', rows, 'maxsize_impls')
+    return '\n'.join(out) + '\n'
+
+
+# ----------------------------------------------------------------------------------------
+# GenSchemaImpls.v: the `impl Schema for X { const SCHEMA: &'static DataModelType = EXPR; }`
+# rows of postcard-schema (built-ins, feature-gated integrations, Key, the schema types)
+
+SCHEMA_IMPL_FILES = ['source/postcard-schema/src/impls/builtins_nostd.rs',
+                     'source/postcard-schema/src/impls/builtins_alloc.rs',
+                     'source/postcard-schema/src/impls/builtins_std.rs',
+                     'source/postcard-schema/src/impls/chrono_v0_4.rs',
+                     'source/postcard-schema/src/impls/heapless_v0_7.rs',
+                     'source/postcard-schema/src/impls/heapless_v0_8.rs',
+                     'source/postcard-schema/src/impls/uuid_v1_0.rs',
+                     'source/postcard-schema/src/impls/nalgebra_v0_33.rs',
+                     'source/postcard-schema/src/impls/mod.rs',
+                     'source/postcard-schema/src/key/mod.rs',
+                     'source/postcard-schema/src/schema/owned.rs']
+
+
+def strip_path(t):
+    return re.sub(r'^(crate::schema::|crate::|schema::)', '', t.strip())
+
+
+def balanced(text, open_ch, close_ch):
+    """text starts with open_ch: return (inside, rest)"""
+    assert text[0] == open_ch
+    depth = 0
+    for i, c in enumerate(text):
+        if c == open_ch:
+            depth += 1
+        elif c == close_ch:
+            depth -= 1
+            if depth == 0:
+                return text[1:i], text[i + 1:]
+    raise Untranslatable("unbalanced %s in `%s`" % (open_ch, text[:40]))
+
+
+def fields_of(text):
+    """`name: expr, other: expr` -> dict"""
+    d = {}
+    for part in split_top(text):
+        m = re.match(r'(\w+)\s*:\s*(.+)$', part, re.S)
+        if not m:
+            raise Untranslatable("field initialiser `%s`" % part[:40])
+        d[m.group(1)] = m.group(2).strip()
+    return d
+
+
+def str_lit(t):
+    m = re.match(r'^"((?:[^"\\]|\\.)*)"$', t.strip())
+    if not m:
+        raise Untranslatable("expected a string literal, found `%s`" % t[:40])
+    return coq_str(unescape(m.group(1)))
+
+
+def tyx(t, cps):
+    t = re.sub(r'\s+', '', t)
+    m = re.match(r'^\[(.+);(\w+)\]$', t)
+    if m:
+        n = m.group(2)
+        if not n.isdigit():
+            raise Untranslatable("array length `%s` in a type path" % n)
+        return "(TxArray %s %s)" % (tyx(m.group(1), cps), n)
+    if re.match(r'^[\w:]+$', t):
+        return "(TxName %s)" % coq_str(t)
+    raise Untranslatable("type `%s` in `<T as Schema>::SCHEMA`" % t)
+
+
+def sexpr(text, tps, cps):
+    t = text.strip()
+    if t.startswith('&'):
+        t = t[1:].strip()
+    t = strip_path(t)
+    m = re.match(r'^(\w+)::SCHEMA$', t)
+    if m:
+        if m.group(1) not in tps:
+            raise Untranslatable("`%s::SCHEMA`: not a type parameter of the impl" % m.group(1))
+        return "(XParam %s)" % coq_str(m.group(1))
+    m = re.match(r'^<(.+)\s+as\s+(?:crate::)?Schema>::SCHEMA$', t, re.S)
+    if m:
+        return "(XOfTy %s)" % tyx(m.group(1), cps)
+    m = re.match(r'^DataModelType::(\w+)\s*(.*)$', t, re.S)
+    if not m:
+        raise Untranslatable("schema expression `%s`" % ' '.join(t.split())[:80])
+    kind, rest = m.group(1), m.group(2).strip()
+    if kind in ('Option', 'Seq'):
+        inner, tail = balanced(rest, '(', ')')
+        if tail.strip():
+            raise Untranslatable("trailing `%s`" % tail[:30])
+        return "(X%s %s)" % (kind, sexpr(inner, tps, cps))
+    if kind == 'Tuple':
+        inner, tail = balanced(rest, '(', ')')
+        if tail.strip():
+            raise Untranslatable("trailing `%s`" % tail[:30])
+        return slice_of(inner, tps, cps, 'XTuple', 'XTupleRep')
+    if kind == 'Map':
+        inner, tail = balanced(rest, '{', '}')
+        f = fields_of(inner)
+        if set(f) != {'key', 'val'} or tail.strip():
+            raise Untranslatable("Map fields %s" % sorted(f))
+        return "(XMap %s %s)" % (sexpr(f['key'], tps, cps), sexpr(f['val'], tps, cps))
+    if kind == 'Struct':
+        inner, tail = balanced(rest, '{', '}')
+        f = fields_of(inner)
+        if set(f) != {'name', 'data'} or tail.strip():
+            raise Untranslatable("Struct fields %s" % sorted(f))
+        return "(XStruct %s %s)" % (str_lit(f['name']), xdata(f['data'], tps, cps))
+    if kind == 'Enum':
+        inner, tail = balanced(rest, '{', '}')
+        f = fields_of(inner)
+        if set(f) != {'name', 'variants'} or tail.strip():
+            raise Untranslatable("Enum fields %s" % sorted(f))
+        vs = f['variants'].strip()
+        if not vs.startswith('&'):
+            raise Untranslatable("variants `%s`" % vs[:30])
+        lst, tail2 = balanced(vs[1:].strip(), '[', ']')
+        rows = []
+        for v in split_top(lst):
+            mv = re.match(r'^&\s*(?:crate::schema::)?Variant\s*(\{.*)$', v.strip(), re.S)
+            if not mv:
+                raise Untranslatable("variant `%s`" % v[:40])
+            vin, _ = balanced(mv.group(1), '{', '}')
+            vf = fields_of(vin)
+            if set(vf) != {'name', 'data'}:
+                raise Untranslatable("Variant fields %s" % sorted(vf))
+            rows.append("(%s, %s)" % (str_lit(vf['name']), xdata(vf['data'], tps, cps)))
+        return "(XEnum %s [%s])" % (str_lit(f['name']), '; '.join(rows))
+    if rest:
+        raise Untranslatable("schema expression `%s`" % ' '.join(t.split())[:80])
+    return "(XPrim %s)" % coq_str(kind)
+
+
+def slice_of(inner, tps, cps, many, rep):
+    t = inner.strip()
+    if not t.startswith('&'):
+        raise Untranslatable("expected a slice literal, found `%s`" % t[:40])
+    lst, tail = balanced(t[1:].strip(), '[', ']')
+    if tail.strip():
+        raise Untranslatable("trailing `%s`" % tail[:30])
+    semi = split_top(lst, ';')
+    if len(semi) == 2:
+        if semi[1] not in cps:
+            raise Untranslatable("repeat count `%s` is not a const parameter" % semi[1])
+        return "(%s %s %s)" % (rep, sexpr(semi[0], tps, cps), coq_str(semi[1]))
+    return "(%s [%s])" % (many, '; '.join(sexpr(e, tps, cps) for e in split_top(lst)))
+
+
+def xdata(text, tps, cps):
+    t = strip_path(text)
+    m = re.match(r'^Data::(\w+)\s*(.*)$', t, re.S)
+    if not m:
+        raise Untranslatable("data expression `%s`" % t[:60])
+    kind, rest = m.group(1), m.group(2).strip()
+    if kind == 'Unit' and not rest:
+        return "XDUnit"
+    inner, tail = balanced(rest, '(', ')')
+    if tail.strip():
+        raise Untranslatable("trailing `%s`" % tail[:30])
+    if kind == 'Newtype':
+        return "(XDNewtype %s)" % sexpr(inner, tps, cps)
+    if kind == 'Tuple':
+        t2 = inner.strip()
+        lst, _ = balanced(t2[1:].strip(), '[', ']')
+        return "(XDTuple [%s])" % '; '.join(sexpr(e, tps, cps) for e in split_top(lst))
+    if kind == 'Struct':
+        t2 = inner.strip()
+        if not t2.startswith('&'):
+            raise Untranslatable("expected a slice literal, found `%s`" % t2[:40])
+        lst, _ = balanced(t2[1:].strip(), '[', ']')
+        rows = []
+        for nf in split_top(lst):
+            mf = re.match(r'^&\s*(?:crate::schema::)?NamedField\s*(\{.*)$', nf.strip(), re.S)
+            if not mf:
+                raise Untranslatable("named field `%s`" % nf[:40])
+            fin, _ = balanced(mf.group(1), '{', '}')
+            ff = fields_of(fin)
+            if set(ff) != {'name', 'ty'}:
+                raise Untranslatable("NamedField fields %s" % sorted(ff))
+            rows.append("(%s, %s)" % (str_lit(ff['name']), sexpr(ff['ty'], tps, cps)))
+        return "(XDStruct [%s])" % '; '.join(rows)
+    raise Untranslatable("data kind `%s`" % kind)
+
+
+def gen_schema_impls(src, attempt, problems):
+    out = ["(* GENERATED by tools/translate.py from the Rust sources. Do not edit. *)",
+           "From PV Require Import Base SchemaImplDecl.", "Open Scope N_scope.", "",
+           "(* postcard-schema: every `impl Schema for X`, Self text normalised; the two arms of",
+           "   the impl_schema! macro are expanded from their templates *)"]
+
+    notes = []
+
+    def rows():
+        res = []
+        for path in SCHEMA_IMPL_FILES:
+            text = src(path)
+            text = re.sub(r'//[^\n]*', '', text)
+            if path.endswith('builtins_nostd.rs'):
+                # the macro: templates of the two arms
+                mac = block_after(text, r'macro_rules!\s*impl_schema\s*')
+                m1 = re.search(r'\(\$\(\$t:ty:\s*\$sdm:expr\),\*\)\s*=>\s*\{(.*?)\};\s*\(tuple', mac, re.S)
+                m2 = re.search(r'\(tuple\s*=>\s*\[\$\(\(\$\(\$generic:ident\),\*\)\),\*\]\)\s*=>\s*\{(.*)\}\s*;?\s*$', mac, re.S)
+                if not m1 or not m2:
+                    raise Untranslatable("impl_schema!: macro arms not recognised")
+                t1 = re.search(r'impl\s+Schema\s+for\s+\$t\s*\{\s*const\s+SCHEMA\s*:\s*&\'static\s+DataModelType\s*=\s*(.+?);', m1.group(1), re.S)
+                t2 = re.search(r'impl<\$\(\$generic:\s*Schema\),\*>\s*Schema\s+for\s+\(\$\(\$generic,\)\*\)\s*\{\s*const\s+SCHEMA\s*:\s*&\'static\s+DataModelType\s*=\s*(.+?);', m2.group(1), re.S)
+                if not t1 or not t2:
+                    raise Untranslatable("impl_schema!: arm templates not recognised")
+                if t1.group(1).strip() != '&$sdm':
+                    raise Untranslatable("impl_schema! first arm: SCHEMA = `%s`, expected `&$sdm`" % t1.group(1).strip())
+                tmpl = t2.group(1)
+                if '$($generic::SCHEMA),*' not in tmpl:
+                    raise Untranslatable("impl_schema! tuple arm: `%s`" % tmpl.strip())
+                for inv in re.finditer(r'impl_schema!\s*([\[(])', text):
+                    body, _ = balanced(text[inv.end() - 1:], inv.group(1), {'[': ']', '(': ')'}[inv.group(1)])
+                    if re.match(r'\s*tuple\s*=>', body):
+                        lst, _ = balanced(body[body.index('['):], '[', ']')
+                        for tup in split_top(lst):
+                            gens = [g.strip() for g in tup.strip()[1:-1].split(',') if g.strip()]
+                            key = '(%s,)' % gens[0] if len(gens) == 1 else '(%s)' % ','.join(gens)
+                            e = tmpl.replace('$($generic::SCHEMA),*', ', '.join('%s::SCHEMA' % g for g in gens))
+                            res.append("(%s, %s)" % (coq_str(key), sexpr(e, gens, [])))
+                    else:
+                        for row in split_top(body):
+                            m = re.match(r'^(.+?)\s*:\s*(DataModelType::.+)$', row, re.S)
+                            if not m:
+                                raise Untranslatable("impl_schema! row `%s`" % row[:40])
+                            res.append("(%s, %s)" % (coq_str(norm_self(m.group(1))), sexpr(m.group(2), [], [])))
+                text = text[:text.index('macro_rules!')] + text[text.index('impl<T: Schema> Schema for Option<T>'):] if 'impl<T: Schema> Schema for Option<T>' in text else text
+            for m in re.finditer(r'impl\s*(<[^{]*?>)?\s*(?:crate::)?Schema\s+for\s+([^{]+?)\s*(?:where[^{]*)?\{\s*const\s+SCHEMA\s*:\s*&\'static\s+(?:crate::schema::)?DataModelType\s*=\s*(.+?);\s*\}', text, re.S):
+                gen, selft, expr = m.group(1) or '', m.group(2), m.group(3)
+                if '$' in selft:
+                    continue
+                tps = re.findall(r'\b([A-Z]\w*)\s*(?::|,|>)', re.sub(r'const\s+\w+\s*:\s*usize', '', gen))
+                cps = re.findall(r'const\s+(\w+)\s*:\s*usize', gen)
+                key = norm_self(selft)
+                try:
+                    res.append("(%s, %s)" % (coq_str(key), sexpr(expr, tps, cps)))
+                except Untranslatable as e:
+                    if 'nalgebra' in path:
+                        # outside the modelled fragment (const fn over raw parts): recorded, row opaque
+                        notes.append("(* row `%s` in %s is outside the translated fragment (%s): opaque *)" % (key[:60], path.split('/')[-1], str(e).replace('*)', '* )')))
+                        res.append("(%s, XOpaque)" % coq_str(key))
+                    else:
+                        raise Untranslatable("row `%s` in %s: %s" % (key, path.split('/')[-1], e))
+        if len(res) < 60:
+            raise Untranslatable("postcard-schema impls: only %d rows found" % len(res))
+        return '\n'.join(notes) + "\nDefinition schema_impls : list (list N * sexpr) :=\n  [%s]." % ';\n   '.join(res)
+    attempt(out, 'postcard-schema impls:rows', rows, 'schema_impls')
     return '\n'.join(out) + '\n'
